@@ -304,6 +304,33 @@ impl<'a> MG<'a> {
     fn body(&mut self) -> Body {
         if self.r.chance(3, 5) {
             Body::Block(self.block())
+        } else if self.depth + 1 < self.cfg.max_depth && self.r.chance(1, 4) {
+            // a compound statement as the single-statement body (`while (a) while (b) { .. }`);
+            // an inner `if` always carries its own else, so that a following else is unambiguous
+            self.depth += 1;
+            let c = self.expr(1);
+            let s = match self.r.below(3) {
+                0 => {
+                    let b = Body::Block(self.block());
+                    self.s(SK::While(c, b))
+                }
+                1 => {
+                    let t = Body::Block(self.block());
+                    let e = Body::Block(self.block());
+                    self.s(SK::If(c, t, Some(e)))
+                }
+                _ => {
+                    let t = self.ty();
+                    let v = self.name();
+                    let a = self.int_lit();
+                    let b = self.int_lit();
+                    let it = Iterable::Range(self.e(EK::Range(Box::new(a), None, Box::new(b))));
+                    let body = Body::Block(self.block());
+                    self.s(SK::For(t, v, it, body))
+                }
+            };
+            self.depth -= 1;
+            Body::Single(Box::new(s))
         } else {
             self.depth += 1;
             let s = self.simple_stmt();
